@@ -63,7 +63,9 @@ func (pat Secret) Match(val string) bool {
 	for i := range parts {
 		parts[i] = regexp.QuoteMeta(parts[i])
 	}
-	re := regexp.MustCompile(fmt.Sprintf("^%s$", strings.Join(parts, ".*")))
+	// The (?s) flag lets '.' match newlines too, so '*' really means "zero or
+	// more of any character".
+	re := regexp.MustCompile(fmt.Sprintf("(?s)^%s$", strings.Join(parts, ".*")))
 	return re.MatchString(val)
 }
 
